@@ -114,7 +114,7 @@ static sess::Outcome run_and_check(Session& s, bool check = true)
         if (o.crashed) j.s("stderr", o.stderr_tail).n("status", o.exit_status);
         return j;
     };
-    std::string stopcls = s.spec.stop_at >= 0 ? ":stopped" : "";
+    std::string stopcls = s.spec.stop_at >= 0 ? ":stopped" : s.spec.stop_at < -1 ? ":stopped_before_search_loop" : "";
     if (s.spec.poison.active) stopcls += ":poisoned";
     if (o.crashed)
     {
@@ -188,7 +188,7 @@ static sess::Outcome run_and_check(Session& s, bool check = true)
     else if (PROP == "C08")
     {
         // (a) mate in one must be played
-        if (s.label.rfind("m1", 0) == 0 && p.bestmoves.size() == 1 && s.spec.stop_at < 0)
+        if (s.label.rfind("m1", 0) == 0 && p.bestmoves.size() == 1 && s.spec.stop_at == -1)
         {
             bool mates = false;
             if (legal_best)
@@ -200,12 +200,15 @@ static sess::Outcome run_and_check(Session& s, bool check = true)
             R.count("mate_in_one_searches");
             if (!mates)
             {
-                std::string hist = s.label.find("after_stopped") != std::string::npos ? ":after_stopped_search" : s.label.find("warm") != std::string::npos ? ":warm_table" : ":fresh_table";
+                std::string hist = s.label.find("after_stopped") != std::string::npos ? ":after_stopped_search"
+                                   : s.label.find("warm_after_searchmoves") != std::string::npos ? ":after_searchmoves_restricted_search"
+                                   : s.label.find("warm") != std::string::npos ? ":warm_table" : ":fresh_table";
+                if (s.label.find("clock99") != std::string::npos) hist += ":halfmove_clock_99";
                 R.violation("C08:mate_in_one_not_played" + hist, w());
             }
         }
         // (b) final mate announcement must be true
-        if (!p.infos.empty() && p.infos.back().is_mate && s.spec.stop_at < 0)
+        if (!p.infos.empty() && p.infos.back().is_mate && s.spec.stop_at == -1)
         {
             long long y = p.infos.back().score;
             R.count("mate_announcements");
@@ -361,7 +364,7 @@ static void list_stops()
     sub.name = "early stop";
     bool q = TIER == "quick";
     long long cap = q ? 1500 : 12000;
-    sub.bound = "for each (position, go) whose un-stopped search makes N <= " + std::to_string(cap) + " node visits: Search::stop() injected at visit k for EVERY k in [0, N]";
+    sub.bound = "for each (position, go) whose un-stopped search makes N <= " + std::to_string(cap) + " node visits: Search::stop() injected at visit k for EVERY k in [0, N], and before go() / on its entry / after its initialisation";
     struct G
     {
         const char* go;
@@ -385,8 +388,9 @@ static void list_stops()
             long long N = o.visits.empty() ? 0 : o.visits.back();
             if (o.crashed || N > cap) continue;
             R.count("stop_families");
-            for (long long k = 0; k <= N; ++k)
+            for (long long k = -4; k <= N; ++k)
             {
+                if (k == -1) continue;   // -2,-3,-4: before go(), on its entry, after its initialisation
                 if (!mine()) continue;
                 if (R.out_of_time()) goto done;
                 Session s = base(sp.fen, g, std::string("stop:") + sp.name);
@@ -462,8 +466,9 @@ static void list_history()
                             sess::Outcome o = run_and_check(dry, false);
                             long long N = o.visits.empty() ? 0 : o.visits[0];
                             if (N > cap) continue;
-                            for (long long k = 0; k <= N; ++k)
+                            for (long long k = -4; k <= N; ++k)
                             {
+                                if (k == -1) continue;
                                 if (!mine()) continue;
                                 if (R.out_of_time()) goto done;
                                 Session t = s;
@@ -569,7 +574,7 @@ static void list_mates(const std::string& sigspec)
     bool q = TIER == "quick";
     int maxd = q ? 2 : 3;
     sub.bound = "every retro-legal placement with a mate in one (refchess): go depth 1.." + std::to_string(maxd) +
-                " on a fresh table, after a depth-4 search of the same position, and (thorough) every 16th placement without mate in one for announcements";
+                " on a fresh table, after a depth-4 search of the same position, after a depth-3 search restricted by searchmoves to a non-mating move; half-move clock cycling 0/98/99; every 97th (quick) / 16th placement without mate in one for announcements";
     uint64_t idx = 0;
     bool done = spaces::enumerate_sig(sp, [&](const ref::Pos& p) {
         ++idx;
@@ -588,17 +593,35 @@ static void list_mates(const std::string& sigspec)
             }
         }
         if (!m1 && (idx % (q ? 97 : 16)) != 0) return true;
-        std::string fen = ref::fen(p);
-        for (int d = 1; d <= maxd; ++d)
-            for (int hist = 0; hist < (m1 ? 2 : 1); ++hist)
+        // half-move clock lattice: a mate delivered on the 100th half-move is still a mate
+        int clocks[3] = {0, 98, 99};
+        ref::Pos pc = p;
+        pc.hmc = m1 ? clocks[idx % 3] : 0;
+        std::string fen = ref::fen(pc);
+        // a non-mating legal move for the searchmoves-restricted history
+        std::string other;
+        if (m1)
+            for (auto& m : lm)
             {
+                ref::make(p, m, t);
+                if (!ref::is_mate(t))
+                {
+                    other = ref::uci(m);
+                    break;
+                }
+            }
+        for (int d = 1; d <= maxd; ++d)
+            for (int hist = 0; hist < (m1 ? 3 : 1); ++hist)
+            {
+                if (hist == 2 && other.empty()) continue;
                 Session s;
                 s.root_fen = fen;
                 s.lines = {"position fen " + fen};
                 if (hist == 1) s.lines.push_back("go depth 4");
+                if (hist == 2) s.lines.push_back("go depth 3 searchmoves " + other);
                 s.lines.push_back("go depth " + std::to_string(d));
                 s.depth_limit = d;
-                s.label = std::string(m1 ? "m1 " : "any ") + (hist ? "warm" : "fresh");
+                s.label = std::string(m1 ? "m1 " : "any ") + (hist == 0 ? "fresh" : hist == 1 ? "warm" : "warm_after_searchmoves") + (pc.hmc ? " clock" + std::to_string(pc.hmc) : "");
                 run_and_check(s);
                 sub.states++;
                 if (sub.states == 9) R.sample(spec_json(s));
